@@ -587,6 +587,7 @@ func runC17(ctx *core.Ctx, idx int) *core.Result {
 		c17GeneratedExtentProbe(res)
 		c17BlockEndCommentProbe(res)
 		c17LinesThenImportsProbe(res)
+		c17SamePathImportProbe(res)
 	}
 	paths := [][]engineRun{applyAPI(pt, srcs)}
 	pnames := []string{"api"}
@@ -787,6 +788,51 @@ func c17LinesThenImportsProbe(res *core.Result) {
 				}
 				if class, detail, _, _ := judgeComments(src, runs[0].Out); class != "" {
 					res.Violate("C17/"+class+"/lines-removed-then-imports-removed", detail, replayFiles(pt, src, runs[0].Out))
+					return
+				}
+			}
+		}
+	}
+}
+
+// c17SamePathImportProbe: the file imports one path twice under different names, once in a declaration of its own and once
+// in a commented group; a change removes the first. The group is not the declaration the change names, and its comments stay.
+func c17SamePathImportProbe(res *core.Result) {
+	firsts := []string{"\"os\"", "_ \"os\"", "sys \"os\""}
+	seconds := []string{"myos \"os\"", "_ \"os\"", "\"os\""}
+	for _, first := range firsts {
+		for _, second := range seconds {
+			if first == second {
+				continue
+			}
+			for _, extra := range []string{"", "\t\"fmt\" // printing\n"} {
+				use := "fmt.Println(1)"
+				if extra == "" {
+					use = "println(1)"
+				}
+				src := "package a\n\nimport " + first + "\n\nimport (\n\t// the second import of os\n\t" + second + " // keep me\n" + extra + ")\n\n// F is documented.\nfunc F() { " + use + " }\n"
+				pt := "@@\n@@\n-import " + first + "\n\n println(1)\n"
+				if extra != "" {
+					pt = "@@\n@@\n-import " + first + "\n\n fmt.Println(1)\n"
+				}
+				if !gen.Parses(src) {
+					continue
+				}
+				runs := applyAPI(pt, []string{src})
+				res.Evals++
+				res.Ob("same-path-import-probes", 1)
+				if runs[0].Pan != "" || runs[0].Err != "" || runs[0].Out == src {
+					res.Violate("C17/same-path-import-probe-failed", runs[0].Pan+runs[0].Err, replayFiles(pt, src, runs[0].Out))
+					return
+				}
+				for _, c := range []string{"// the second import of os", "// keep me", "// F is documented."} {
+					if strings.Count(runs[0].Out, c) != 1 {
+						res.Violate("C17/comment-of-untouched-import-declaration-lost/same-path-under-another-name", fmt.Sprintf("%q occurs %d times in the output", c, strings.Count(runs[0].Out, c)), replayFiles(pt, src, runs[0].Out))
+						return
+					}
+				}
+				if !strings.Contains(runs[0].Out, second) {
+					res.Violate("C17/same-path-import-probe-failed", "the import of the group is gone", replayFiles(pt, src, runs[0].Out))
 					return
 				}
 			}
